@@ -441,6 +441,11 @@ func (f *Frame) zeroInit(addr T, t types.Type) {
 	}
 }
 
+func isReflectValue(t types.Type) bool {
+	n, ok := t.(*types.Named)
+	return ok && n.Obj().Pkg() != nil && n.Obj().Pkg().Path() == "reflect" && n.Obj().Name() == "Value"
+}
+
 // lvOf returns the location descriptor for a pointer-valued SSA value.
 func (f *Frame) lvOf(addr ssa.Value) *LV {
 	if lv, ok := f.lvs[addr]; ok {
@@ -456,12 +461,13 @@ func (f *Frame) lvOf(addr ssa.Value) *LV {
 	if !ok {
 		panic("lvOf non-pointer " + addr.String())
 	}
-	if _, ok := structOf(pt.Elem()); ok {
+	if _, ok := structOf(pt.Elem()); ok && (f.p.ownStruct(pt.Elem()) || !isReflectValue(pt.Elem())) {
 		return &LV{kind: lvStruct, idx: f.val(addr)}
 	}
 	if _, ok := pt.Elem().Underlying().(*types.Array); ok {
 		return &LV{kind: lvArray, idx: f.val(addr)}
 	}
+	// (a *reflect.Value is a cell holding an opaque value)
 	s := f.p.sortOf(pt.Elem())
 	f.enc.declSortOf(s)
 	return &LV{kind: lvCell, arr: f.p.cellArray(pt.Elem()), asort: ArrSort(SInt, s), idx: f.val(addr)}
